@@ -72,6 +72,12 @@ Fixpoint replay_loop (fuel : nat) (ccrc first : bool) (fsz pos : Z) (l : bytes) 
   end.
 
 Definition fpos_rebased : bool := WAL_REPLAY_REBASES_FPOS =? 1.
+(* Does a replay that restarts at a reset mark (recover_mode 1, checksum checking on) first walk the log in front of the
+   mark - framing and checksums, nothing applied?  The pinned source does not (a mark planted inside a damaged segment
+   is trusted: C05_reset_mark_bypass_refuted); fixes/wal-reset-prefix-verified.diff adds `_segments_intact`, which is
+   the replay loop itself without the stores and without a recovery point.  Regenerated fact (probe_wal.c). *)
+Definition reset_prefix_verified : bool := WAL_REPLAY_VERIFIES_RESET_PREFIX =? 1.
+Definition vok (v : verdict) : bool := match v with VOk => true | _ => false end.
 
 (* the operations the replay performs for a log, per mode; rfoff = wal->rollforward_offset (mode 0 only) *)
 Definition replay_ops_with (spchk ccrc : bool) (mode rfoff : Z) (wal : bytes) : verdict * list aop :=
@@ -86,6 +92,7 @@ Definition replay_ops_with (spchk ccrc : bool) (mode rfoff : Z) (wal : bytes) : 
          meets `fpos == rp - wmm` and runs to the end of the file; fixes/wal-reset-rebase.diff adds
          `fpos -= rpos`.  fpos_rebased is the regenerated fact saying which of the two the current tree does. *)
       let r := rpos - sizeof_WBSEP in
+      if ccrc && reset_prefix_verified && negb (vok (fst (replay_loop (S (length wal)) ccrc true r 0 wal (-1)))) then (VCorrupt, []) else
       replay_loop (S (length wal)) ccrc true (fsz - r) 0 (skipn (Z.to_nat r) wal) (if fpos_rebased then fpos - r else fpos)
     else replay_loop (S (length wal)) ccrc true fsz 0 wal fpos
   else if rfoff >? 0 then
